@@ -1,8 +1,333 @@
-/- Driver handlers for area `handshake` (stub: replace `handle`). -/
-import VDriver.Util
-namespace V.Driver.HandshakeOps
-open V V.Driver
+/- Driver handlers for area `handshake` (C15).
 
-def handle (_op : String) (_args : Array String) : Option String := none
+   The op line carries the request parameters, the oracle answers and the concrete events of the
+   scenario; the event-shape facts of the abstract records (state key, sender, membership, authorised-via,
+   join rules, power levels, creators, joined users) are read off the concrete events here with the
+   accessor models of VModel.Event / VModel.Auth, the same way the Go accessors read them.
+
+   handshake.sendjoin  ver cls ev roomID reqEventID origin local senderQ verify cur
+   handshake.makejoin  ver remoteVers userID origin local inRoom roomID jr pending pl create rooms tmode tstate
+   handshake.makeleave ver userID origin inRoom roomID tmode tstate
+   handshake.invite    ver ev roomID invitedUser senderQ verify known stripped stateq cur
+   handshake.performjoin … (see below)
+-/
+import VDriver.Util
+import VDriver.Auth
+import VDriver.Fedcheck
+import VModel.Handshake
+import VModel.HandshakeSpec
+import VModel.FedCheckInst
+namespace V.Driver.HandshakeOps
+open V V.Json V.GoJson V.Driver V.Handshake V.Driver.AuthOps
+
+def showHErr : HErr → String
+  | .matrix c => "err:" ++ c
+  | .internal => "err:internal"
+  | .other => "err:other"
+
+/-- `event.Membership()`: decode of `struct{ Membership string }`, then the state-key check -/
+def membershipOf (e : Event) : Option Bytes :=
+  let m : Option Bytes := match e.content with
+    | none => none
+    | some .null => some []
+    | some (.obj kvs) =>
+      let d := decString (lookupField kvs b!"membership")
+      if d.err then none else some d.val
+    | some _ => none
+  match m with
+  | none => none
+  | some v => if e.stateKey.isNone then none else some v
+
+/-- `json.Unmarshal(content, &MemberContent{})` succeeds, and the authorised-via it yields -/
+def memberContentOf (e : Event) : Bool × Bytes :=
+  match e.content with
+  | none => (false, [])
+  | some .null => (true, [])
+  | some (.obj kvs) =>
+    let m := decString (lookupField kvs b!"membership")
+    let dn := decString (lookupField kvs b!"displayname")
+    let av := decString (lookupField kvs b!"avatar_url")
+    let rs := decString (lookupField kvs b!"reason")
+    let isd := decBool false (lookupField kvs b!"is_direct")
+    let tp := Auth.decodeThirdParty (lookupField kvs b!"third_party_invite")
+    let via := decString (lookupField kvs b!"join_authorised_via_users_server")
+    let mm := (Auth.decodeMxidMapping (lookupField kvs b!"mxid_mapping")).1
+    (!(m.err || dn.err || av.err || rs.err || isd.err || tp.err || via.err || mm.err), via.val)
+  | some _ => (false, [])
+
+/-- the standard `spec.NewUserID(id, true)` as an oracle: `none` = invalid -/
+def userIDOracle : UserIDOracle := fun id =>
+  match parseUserID? id with
+  | some (some u) => some u.domain
+  | _ => none
+
+def parseVerify (s : String) : VerifyAns :=
+  if s == "err" then .callErr else if s == "bad" then .bad else .good
+
+def parseCur (s : String) : Option Bytes :=
+  if s == "err" then none else some (strBytes (s.drop 2).toString)
+
+def unhexD (s : String) : Bytes := (unhex s).getD []
+
+def knownVersion (v : Bytes) : Bool := (versionRow? v).isSome
+
+/-- `json.Unmarshal(content, &JoinRuleContent{})` -/
+def decodeJoinRules (c : Option JVal) : Option JoinRules :=
+  match c with
+  | none => none
+  | some .null => some { rule := [], allow := [] }
+  | some (.obj kvs) =>
+    let jr := decString (lookupField kvs b!"join_rule")
+    let allow : Dec (List AllowRule) := match lookupField kvs b!"allow" with
+      | none => ⟨[], false⟩
+      | some .null => ⟨[], false⟩
+      | some (.arr xs) =>
+        let ds := xs.map (fun x => match x with
+          | .null => ((⟨[], []⟩ : AllowRule), false)
+          | .obj a =>
+            let t := decString (lookupField a b!"type"); let r := decString (lookupField a b!"room_id")
+            (⟨t.val, r.val⟩, t.err || r.err)
+          | _ => (⟨[], []⟩, true))
+        ⟨ds.map (·.1), ds.any (·.2)⟩
+      | some _ => ⟨[], true⟩
+    if jr.err || allow.err then none else some { rule := jr.val, allow := allow.val }
+  | some _ => none
+
+/-- spec.NewRoomID for the room IDs the generator uses ("!local:domain" shape or 43-char domainless) -/
+def roomIDValid (id : Bytes) : Bool :=
+  match id with
+  | 0x21 :: rest =>
+    match cutAt 0x3A rest with
+    | some (l, d) => !l.isEmpty && (serverNameValid? d == some true) && id.length ≤ 255
+    | none => rest.length == 43 && rest.all (fun c => isDNSNameChar c && c != 0x2E || c == 0x5F)
+  | _ => false
+
+def qEvent (ver : Bytes) (s : String) : QAns (Option Event) :=
+  if s == "err" then .err else if s == "nil" then .ans none
+  else match parseEvArg ver s with
+    | some e => .ans (some e)
+    | none => .err
+
+def evList (ver : Bytes) (s : String) : List Event :=
+  (FedcheckOps.splitList s ",").filterMap (parseEvArg ver)
+
+/-- the event the harness's template builder makes of the proto event -/
+def templateEvent (ver : Bytes) (type sender roomID : Bytes) (membership via : Bytes) : Event :=
+  let content : List (Bytes × JVal) :=
+    [(b!"membership", .str membership)] ++ (if via.isEmpty then [] else [(b!"join_authorised_via_users_server", .str via)])
+  { ver := ver, eventID := b!"$template:hs1",
+    obj := [(b!"type", .str type), (b!"sender", .str sender), (b!"room_id", .str roomID), (b!"state_key", .str sender),
+            (b!"content", .obj content), (b!"depth", .num b!"10"), (b!"origin_server_ts", .num b!"1"),
+            (b!"prev_events", .arr (if ((versionRow? ver).map (·.eventFormat)).getD 2 == 1
+                then [.arr [.str b!"$prev:hs1", .obj [(b!"sha256", .str b!"47DEQpj8HBSa+/TImW+5JCeuQeRkm5NMpJWZG3hSuFU")]]]
+                else [.str b!"$prev:hs1"])),
+            (b!"auth_events", .arr [])] }
+
+def templateAns (ver : Bytes) (tmode : String) (state : List Event) (sender roomID membership : Bytes) : Bytes → TemplateAns := fun via =>
+  if tmode == "err" then .err else if tmode == "nilev" then .nilEvent else if tmode == "nilstate" then .nilState
+  else
+    let ty := if tmode == "wrongtype" then b!"m.room.message" else b!"m.room.member"
+    let ev := templateEvent ver ty sender roomID membership via
+    let stateOK := state.all (fun e => e.stateKey.isSome)
+    let allowed := Auth.allowedFresh ev (Auth.Provider.ofEvents state) == .ok
+    .built ty stateOK allowed
+
+/-- the join event PerformJoin builds from the make_join template (origin_server_ts and hence the event ID
+    depend on the clock: neither enters the checks) -/
+def builtJoinEvent (ver : Bytes) (fmt1 : Bool) (joiner roomID : Bytes) (authIDs : List Bytes) : Event :=
+  let refs (ids : List Bytes) : JVal := .arr (ids.map (fun id =>
+    if fmt1 then .arr [.str id, .obj [(b!"sha256", .str b!"47DEQpj8HBSa+/TImW+5JCeuQeRkm5NMpJWZG3hSuFU")]] else .str id))
+  { ver := ver, eventID := b!"$built",
+    obj := [(b!"type", .str b!"m.room.member"), (b!"sender", .str joiner), (b!"room_id", .str roomID), (b!"state_key", .str joiner),
+            (b!"content", .obj [(b!"displayname", .str b!"n"), (b!"membership", .str b!"join")]),
+            (b!"depth", .num b!"20"), (b!"origin_server_ts", .num b!"1"),
+            (b!"prev_events", refs [b!"$prev:hs1"]), (b!"auth_events", refs authIDs)] }
+
+def showSigned (aj : Option Bool) (s : Signed) : String :=
+  "ok" ++ (match aj with | some b => ":aj=" ++ (if b then "1" else "0") | none => "") ++ ":sig=1:unmod=1:signer=" ++ bytesStr s.signer
+
+/-- combine the model outcome with the property's guard predicate into the specification stream:
+    where the guards fail the property demands a refusal -/
+def withSpec (m : String) (guards : Bool) : String :=
+  if guards then m ++ "\t" ++ m
+  else if m.startsWith "err" then m ++ "\t" ++ m
+  else m ++ "\t" ++ "err:must-reject"
+
+def handle (op : String) (args : Array String) : Option String :=
+  match op, args.toList with
+  | "sendjoin", [ver, cls, ev, roomID, reqEventID, origin, localS, senderQ, verify, cur] =>
+    let v := strBytes ver
+    if v == b!"org.matrix.msc4014" then some "skip:pseudo-id version" else
+    let known := knownVersion v
+    let e : Event := if cls == "o" || cls == "p" then (parseEvArg v ev).getD default else default
+    let (dec, via) := memberContentOf e
+    let i : SendJoinIn := {
+      versionKnown := known, parses := cls == "o",
+      stateKey := e.stateKey, sender := e.sender, eventRoomID := e.roomID, eventID := e.eventID,
+      membership := membershipOf e, contentDecodes := dec, authorisedVia := via,
+      roomID := unhexD roomID, reqEventID := unhexD reqEventID, requestOrigin := strBytes origin,
+      localServer := strBytes localS, keyID := b!"ed25519:k1",
+      senderDomain := if senderQ == "err" then none else userIDOracle e.sender,
+      verify := parseVerify verify, curMembership := parseCur cur, userID := userIDOracle }
+    let m := match handleSendJoin i with
+      | .ok o => showSigned (some o.alreadyJoined) o.sig
+      | .error er => showHErr er
+    some (withSpec m (Spec.sendJoinGuards i))
+  | "makejoin", [ver, remoteVers, userID, origin, _localS, inRoom, roomID, jr, pending, pl, create, rooms, tmode, tstate] =>
+    let v := strBytes ver
+    match versionRow? v with
+    | none => some "skip:unknown room version (MustGetRoomVersion precondition)"
+    | some row =>
+      let user := strBytes userID
+      let jrAns : QAns (Option (Option JoinRules)) := match qEvent v jr with
+        | .err => .err
+        | .ans none => .ans none
+        | .ans (some e) => .ans (some (decodeJoinRules e.content))
+      let plAns : QAns (Option (Option PL)) := match qEvent v pl with
+        | .err => .err
+        | .ans none => .ans none
+        | .ans (some e) =>
+          if !e.stateKeyEquals [] then .ans (some none) else
+          match Auth.powerLevelsFromEvent e with
+          | .ok p => .ans (some (some { userLevel := p.userLevel, invite := p.invite }))
+          | .error _ => .ans (some none)
+      let crAns : QAns (Option (List Bytes)) := match qEvent v create with
+        | .err => .err
+        | .ans none => .ans none
+        | .ans (some e) => .ans (some (e.sender :: ((Auth.decodeCreateContent e.content).map (·.additionalCreators)).getD []))
+      let roomTbl : List (Bytes × QAns (Option RoomInfo)) := (FedcheckOps.splitList rooms "|").filterMap (fun ent =>
+        match ent.splitOn ";" with
+        | [rid, st, users] =>
+          let a : QAns (Option RoomInfo) :=
+            if st == "err" then .err else if st == "nil" then .ans none
+            else
+              let cs := st.toList
+              .ans (some { localServerInRoom := cs[0]! == '1', userJoinedToRoom := cs[1]! == '1',
+                           joinedUsers := (evList v users).map (fun e => { type := e.type, stateKey := e.stateKey }) })
+          some (unhexD rid, a)
+        | _ => none)
+      let q : RestrictedQ := {
+        joinRules := jrAns,
+        invitePending := if pending == "err" then .err else .ans (pending == "1"),
+        powerLevels := plAns, create := crAns, roomIDValid := roomIDValid,
+        roomInfo := fun r => (roomTbl.lookup r).getD (.ans none) }
+      let state := evList v tstate
+      let i : MakeJoinIn := {
+        roomVersion := v, remoteVersions := (FedcheckOps.splitList remoteVers ",").map strBytes,
+        userDomain := (userIDOracle user).getD [], requestOrigin := strBytes origin,
+        localServerInRoom := inRoom == "1",
+        restrictedVersion := row.checkRestrictedJoin == "checkRestrictedJoin",
+        privilegedCreators := row.privilegedCreators, q := q,
+        template := templateAns v tmode state user (unhexD roomID) b!"join" }
+      let m := match handleMakeJoin i with
+        | .ok o => "ok:via=" ++ bytesStr o.authorisedVia
+        | .error er => showHErr er
+      some (withSpec m (Spec.makeJoinGuards i))
+  | "makeleave", [ver, userID, origin, inRoom, roomID, tmode, tstate] =>
+    let v := strBytes ver
+    let user := strBytes userID
+    let i : MakeLeaveIn := {
+      roomVersion := v, userDomain := (userIDOracle user).getD [], requestOrigin := strBytes origin,
+      localServerInRoom := inRoom == "1",
+      template := templateAns v tmode (evList v tstate) user (unhexD roomID) b!"leave" [] }
+    let m := match handleMakeLeave i with
+      | .ok _ => "ok"
+      | .error er => showHErr er
+    some (withSpec m (Spec.makeLeaveGuards i))
+  | "invite", [ver, ev, roomID, invitedUser, senderQ, verify, known, stripped, stateq, cur] =>
+    let v := strBytes ver
+    if v == b!"org.matrix.msc4014" then some "skip:pseudo-id version" else
+    -- the event was built for version `evver` = ver when known, else "10"
+    let ever := if knownVersion v then v else b!"10"
+    let e : Event := (parseEvArg ever ev).getD default
+    let i : InviteIn := {
+      versionKnown := knownVersion v, eventRoomID := e.roomID, roomID := unhexD roomID,
+      senderDomain := if senderQ == "err" then none else userIDOracle e.sender,
+      verify := parseVerify verify,
+      invitedUserDomain := (userIDOracle (strBytes invitedUser)).getD [], keyID := b!"ed25519:k1",
+      knownRoom := if known == "err" then .err else .ans (known == "1"),
+      strippedGiven := stripped.toNat!,
+      stateQuery := if stateq == "err" then .err else .ans stateq.toNat!,
+      curMembership := parseCur cur,
+      eventType := e.type, membership := membershipOf e, stateKey := e.stateKey }
+    let m := match handleInvite i with
+      | .ok o => showSigned none o.sig ++ ":stripped=" ++ toString o.strippedLen
+      | .error er => showHErr er
+    some (withSpec m (Spec.inviteGuards i))
+  | "invitev3", [ver, roomID, protoRoom, _ptype, _membership, sender, big, known, stripped, stateq, cur] =>
+    let v := strBytes ver
+    let common : InviteIn := {
+      versionKnown := knownVersion v, eventRoomID := unhexD protoRoom, roomID := unhexD roomID,
+      senderDomain := none, verify := .good, invitedUserDomain := b!"hs1", keyID := b!"ed25519:k1",
+      knownRoom := if known == "err" then .err else .ans (known == "1"),
+      strippedGiven := stripped.toNat!,
+      stateQuery := if stateq == "err" then .err else .ans stateq.toNat!,
+      curMembership := parseCur cur,
+      eventType := [], membership := none, stateKey := none }
+    let i : InviteV3In := {
+      common := common, protoRoomID := unhexD protoRoom,
+      invitedSenderID := if sender == "err" then none else some b!"invitee-room-key",
+      -- Build succeeds exactly for the pseudo-ID version (elsewhere the sender, a bare key, fails the
+      -- user-ID field check) and for events within the size limit
+      buildOK := v == b!"org.matrix.msc4014" && big == "0" }
+    let m := match handleInviteV3 i with
+      | .ok o => "ok:sig=1:shape=1:stripped=" ++ toString o.strippedLen
+      | .error er => showHErr er
+    some m
+  | "performjoin", [ver, mjmode, mjver, pool, auth, state, badsig, prov, sjmode, remote, joinAuth, roomID] =>
+    let v := strBytes ver
+    if v == b!"org.matrix.msc4014" || mjver == "org.matrix.msc4014" then some "skip:pseudo-id version" else
+    match parseEvArgs v (FedcheckOps.splitList pool ",") with
+    | none => some "bad-op"
+    | some es =>
+      let env : FedcheckOps.Env := { pool := es.toArray }
+      let fmt1 := ((versionRow? v).map (·.eventFormat)).getD 2 == 1
+      let authIdx := FedcheckOps.natList joinAuth
+      let resolved : Bytes := if mjver == "" || mjver == "-" then (if authIdx.isEmpty || fmt1 then b!"1" else b!"4") else strBytes mjver
+      if knownVersion resolved && resolved != v then some "skip:make_join version differs from the events' version" else
+      let O := FedCheck.authOracles ((env.evs (FedcheckOps.natList badsig)).map (·.eventID))
+      let p := FedcheckOps.parseProv env prov
+      let A := FedcheckOps.parseEntries env auth; let S := FedcheckOps.parseEntries env state
+      let rid := unhexD roomID
+      let joiner := b!"@newcomer:hs5"
+      let built : Event := builtJoinEvent v fmt1 joiner rid ((env.evs authIdx).map (·.eventID))
+      let remoteEv : Option Event :=
+        match (FedcheckOps.parseEntries env remote) with
+        | [.ok e] => if wellFormedJoin (membershipOf e) e.roomID rid e.stateKey joiner then some e else none
+        | _ => none
+      let create : CreateFound :=
+        match (FedCheck.untrusted A).find? (fun e => e.type == b!"m.room.create" && e.stateKey == some []) with
+        | none => .missing
+        | some ce =>
+          match ce.content with
+          | none => .undecodable
+          | some .null => .version []
+          | some (.obj kvs) =>
+            let d := decString (lookupField kvs b!"room_version")
+            if d.err then .undecodable else .version d.val
+          | some _ => .undecodable
+      let i : PerformJoinIn Auth.Provider := {
+        makeJoinOK := mjmode != "err", versionKnown := knownVersion resolved, buildOK := true, sendJoinOK := sjmode != "err",
+        built := built, remoteEvent := remoteEv, create := create, knownVersion := knownVersion,
+        O := O, prov := p, fuel := FedcheckOps.caFuel, auth := A, state := S }
+      let used := if remoteEv.isSome then "remote" else "built"
+      let m := match performJoin i with
+        | .ok (some o) => "ok:" ++ used ++ ":" ++ env.showEvs o.auth ++ "|" ++ env.showEvs o.state
+        | .ok none => "diverge"
+        | .error .makeJoinFailed => "err:make_join"
+        | .error .unknownVersion => "err:version"
+        | .error .buildFailed => "err:build"
+        | .error .sendJoinFailed => "err:send_join"
+        | .error .noCreate => "err:no-create"
+        | .error .checkFailed => "err:check"
+      -- C15: "returns a join only if the remote's state passes the federation-response checks and contains a
+      -- create event of a known room version"
+      let ev := joinEventUsed i
+      let contractOK := FedCheck.Spec.provOKOn p (FedcheckOps.idsInPlay (ev :: FedCheck.untrusted A ++ FedCheck.untrusted S))
+      if !contractOK then some (m ++ "\tunspecified:provider-contract") else
+      let guards := checkCreate knownVersion create &&
+        (FedCheck.Spec.sendJoin O p (FedCheck.untrusted A) (FedCheck.untrusted S) ev).isSome
+      some (withSpec m guards)
+  | _, _ => none
 
 end V.Driver.HandshakeOps
